@@ -1858,7 +1858,9 @@ func (l *MPLSLabelStack) DecodeFromBytes(data []byte, options ...*MarshallingOpt
 
 	for len(data) >= 3 {
 		label := uint32(data[0])<<16 | uint32(data[1])<<8 | uint32(data[2])
-		if label == WITHDRAW_LABEL || label == ZERO_LABEL {
+		// the withdraw pseudo labels are a single 3-octet field; further down a
+		// stack 0x000000 / 0x800000 are ordinary entries (label 0 / 524288, S=0)
+		if len(labels) == 0 && (label == WITHDRAW_LABEL || label == ZERO_LABEL) {
 			l.Labels = []uint32{label}
 			return nil
 		}
